@@ -7,7 +7,9 @@
     `writeDataArray` / `bandLoop` mirrors; its default dtype;
   * OTD: the output tree;
   * main: whether the derived right interval is assigned into the configuration that is saved, whether
-    `cfg["margins"]` is set before `save_config(output, cfg)`.
+    `cfg["margins"]` is set before `save_config(output, cfg)`;
+  * run / PandoraMachine.<step>_run: the writes into `cfg` (the dictionary `main` saves afterwards): none, or exactly the
+    `indicator` of the confidence step being run (`runWritesIndicator`).
 `ast` only; anything unrecognised raises `Unsupported`.
 """
 from __future__ import annotations
@@ -20,6 +22,12 @@ NAME = "SaveTable"
 SRC_COMMON = "pandora/common.py"
 SRC_OTD = "pandora/output_tree_design.py"
 SRC_MAIN = "pandora/__init__.py"
+SRC_MACHINE = "pandora/state_machine.py"
+
+# the only writes into the configuration `pandora.run` is known to make (it is the dictionary `main` saves afterwards)
+RUN_INDICATOR = """cfg['pipeline'][input_step]['indicator'] = ''
+if len(input_step.split('.', 1)) == 2:
+    cfg['pipeline'][input_step]['indicator'] = '.' + input_step.split('.', 1)[1]"""
 
 WRITE_DATA_ARRAY = """def write_data_array(data_array: xr.DataArray, filename: str, dtype: rasterio.dtypes=rasterio.dtypes.float32, band_names: List[str]=None, crs: Union[rasterio.crs.CRS, None]=None, transform: Union[rasterio.Affine, None]=None) -> None:
     if len(data_array.shape) == 2:
@@ -198,10 +206,57 @@ def extract_main():
     return {"writesRightDisp": writes, "addsMargins": adds}
 
 
+def _cfg_writes(fn: ast.FunctionDef):
+    out = []
+    for node in ast.walk(fn):
+        if isinstance(node, (ast.Assign, ast.AugAssign)):
+            targets = node.targets if isinstance(node, ast.Assign) else [node.target]
+            if any(ast.unparse(t).startswith("cfg[") for t in targets):
+                out.append(ast.unparse(node))
+        elif isinstance(node, ast.Call) and isinstance(node.func, ast.Attribute) and node.func.attr in (
+                "update", "pop", "setdefault", "clear", "popitem", "__setitem__", "__delitem__"):
+            if ast.unparse(node.func.value).startswith("cfg"):
+                out.append(ast.unparse(node))
+        elif isinstance(node, ast.Delete) and any(ast.unparse(t).startswith("cfg[") for t in node.targets):
+            out.append(ast.unparse(node))
+    return out
+
+
+def extract_run_writes() -> bool:
+    """what `pandora.run` and the `<step>_run` callbacks of the machine write into `cfg` (the dictionary `main` saves
+    afterwards): nothing (False), or exactly the `indicator` of the confidence step being run (True)"""
+    found = {}
+    run_fn = find_function(parse(SRC_MAIN), "run")
+    if _cfg_writes(run_fn):
+        raise Unsupported(f"run: unexpected write into the configuration: {_cfg_writes(run_fn)[0]}")
+    mod = parse(SRC_MACHINE)
+    for node in mod.body:
+        if isinstance(node, ast.ClassDef) and node.name == "PandoraMachine":
+            for fn in node.body:
+                if isinstance(fn, ast.FunctionDef) and (fn.name.endswith("_run") or fn.name.startswith("run")):
+                    w = _cfg_writes(fn)
+                    if w:
+                        found[fn.name] = (w, fn)
+    if not found:
+        return False
+    if set(found) != {"cost_volume_confidence_run"}:
+        name = sorted(set(found) - {"cost_volume_confidence_run"})[0]
+        raise Unsupported(f"{name}: unexpected write into the configuration: {found[name][0][0]}")
+    w, fn = found["cost_volume_confidence_run"]
+    body = "\n".join(line.strip() for line in ast.unparse(_strip_doc(fn)).splitlines())
+    want = "\n".join(line.strip() for line in RUN_INDICATOR.splitlines())
+    if want not in body or len(w) != 2:
+        raise Unsupported(f"cost_volume_confidence_run: writes into the configuration not recognised: {w} "
+                          f"(model mirrors {RUN_INDICATOR!r})")
+    return True
+
+
 def extract() -> dict:
     cmod = parse(SRC_COMMON)
     extract_write(cmod)
-    return {"table": extract_table(cmod), "otd": extract_otd(), "main": extract_main()}
+    main = extract_main()
+    main["runWritesIndicator"] = extract_run_writes()
+    return {"table": extract_table(cmod), "otd": extract_otd(), "main": main}
 
 
 def _b(x: bool) -> str:
@@ -240,6 +295,10 @@ def render(d: dict) -> str:
         f"addsMargins := {_b(d['main']['addsMargins'])} }}"
     )
     lines.append("")
+    lines.append("/-- `pandora.run` overwrites `cfg[\"pipeline\"][step][\"indicator\"]` of every confidence step it runs, in the")
+    lines.append("    dictionary `main` saves afterwards (`cost_volume_confidence_run`), and writes nothing else into it -/")
+    lines.append(f"def runWritesIndicator : Bool := {_b(d['main']['runWritesIndicator'])}")
+    lines.append("")
     lines.append("end Pandora.Generated")
     return "\n".join(lines) + "\n"
 
@@ -247,5 +306,5 @@ def render(d: dict) -> str:
 def generate():
     d = extract()
     write_if_changed("SaveTable.lean", render(d))
-    return {"T10": {"sources": [SRC_COMMON, SRC_OTD, SRC_MAIN], "digest": digest(SRC_COMMON, SRC_OTD, SRC_MAIN),
+    return {"T10": {"sources": [SRC_COMMON, SRC_OTD, SRC_MAIN, SRC_MACHINE], "digest": digest(SRC_COMMON, SRC_OTD, SRC_MAIN, SRC_MACHINE),
                     "rows": len(d["table"]), "main": d["main"]}}
